@@ -634,6 +634,19 @@ static int check_websocket_version(const char *at, size_t length)
 	}
 }
 
+/*
+ * The elements of a header list are separated by commas with optional
+ * white space on both sides ("jet , chat"): white space in front of the
+ * separator does not belong to the element.
+ */
+static size_t token_length(const char *start, const char *end)
+{
+	while ((end > start) && isspace(end[-1])) {
+		end--;
+	}
+	return (size_t)(end - start);
+}
+
 static void fill_requested_sub_protocol(struct websocket *s, const char *name, size_t length)
 {
 	size_t name_length = strlen(s->sub_protocol.name);
@@ -653,8 +666,7 @@ static void check_websocket_protocol(struct websocket *s, const char *at, size_t
 			const char *end = start;
 			while (length > 0) {
 				if (*end == ',') {
-					ptrdiff_t len = end - start;
-					fill_requested_sub_protocol(s, start, len);
+					fill_requested_sub_protocol(s, start, token_length(start, end));
 					start = end;
 					break;
 				}
@@ -662,8 +674,7 @@ static void check_websocket_protocol(struct websocket *s, const char *at, size_t
 				length--;
 			}
 			if (length == 0) {
-				ptrdiff_t len = end - start;
-				fill_requested_sub_protocol(s, start, len);
+				fill_requested_sub_protocol(s, start, token_length(start, end));
 			}
 		} else {
 			start++;
@@ -846,8 +857,7 @@ static void check_websocket_extensions(struct websocket *s, const char *at, size
 			const char *end = start;
 			while (length > 0) {
 				if ( *end == ',') {
-					ptrdiff_t len = end - start;
-					fill_requested_extension(s, start, len);
+					fill_requested_extension(s, start, token_length(start, end));
 					start = end;
 					break;
 				}
@@ -855,8 +865,7 @@ static void check_websocket_extensions(struct websocket *s, const char *at, size
 				length--;
 			}
 			if (length == 0) {
-				ptrdiff_t len = end - start;
-				fill_requested_extension(s, start, len);
+				fill_requested_extension(s, start, token_length(start, end));
 			}
 		} else {
 			start++;
